@@ -256,6 +256,8 @@ UNITS += [
     ensures
         // nothing stays behind in the open pack when the packer is finalized
         /*@finalize_flushes_open_pack*/ r is Ok ==> final(self).basic.index.blobs@.len() == 0,
+        // the writer thread is ALWAYS waited for (its result is where failed pack writes surface), whether or not a pack was open
+        /*@finalize_always_waits_for_the_writer*/ r is Ok ==> final(self).file_writer is None && WRITER_JOINED(sent_of(old(self).file_writer).len() as int),
 """),
     Unit(name="raw_has", file=PK, anchor="fn has(&self, id: &BlobId) -> bool", within="impl<BE: DecryptWriteBackend> RawPacker<BE> {", ret_name="r", **RP,
          functions=["blob::packer::RawPacker::has"],
